@@ -81,7 +81,8 @@ detail = f'f={f} fg={fg} fgh={fgh} calls={calls}'
 def extra(tier, seed):
     from pyvc.bounded import run_native
     from contracts.c07c_static import extras as static_extras
-    return static_extras(tier, seed) + [
+    from contracts import m1_static          # round 3 (m1): every local bound before it is read (incl. reads in dropped logger calls)
+    return static_extras(tier, seed) + m1_static.extras('C07') + [
             run_native('C07:bounded:wrappers-handover', 'c07c_handover.py', ['all'],
                        bound='8 wrappers x 7 bound lists (None / 0 / -0.0 / negative / positive / one- and two-sided) x parameter dicts (None, {}, each documented key alone '
                              'with a non-default and with a zero / False value, all keys, unknown keys); underlying optimiser spied'),
